@@ -21,6 +21,8 @@ def plan(pid, tier, seed):
             {"module": "CallGraph", "cfg": "CallGraph_Live.cfg", "emit": True, "sample": 20000,
              "properties": PROPS_ALL + ["C03_C04_Terminates"], "timeout": 1800, "coverage": True},
         ]
+    if quick and pid == "C07":     # C07 only needs the repeated-request histories
+        mc = [dict(mc[0], sample=1500)]
     return {
         "harness": "callgraph",
         "mc": mc,
